@@ -165,6 +165,18 @@ where
                                 }
                             }
 
+                            // A worker that keeps finding work of its own (always the case with
+                            // a single thread) must still notice a timeout or another worker
+                            // having stopped.
+                            if !job_broker.is_open() {
+                                log::debug!(
+                                    "{}: Market closed. Shutting down... gen={}",
+                                    t,
+                                    generated.len()
+                                );
+                                return;
+                            }
+
                             // Step 2: Share work.
                             #[cfg(getong_stateright_verif)]
                             crate::verif_hooks::yield_point("dfs.before_share");
